@@ -637,3 +637,75 @@ E("EQ-persist-match-reordered", WRITER,
             }
         }
     }""")
+
+# ======================================================================== C05
+B("C05-range-seqno-max", "C05", "C05:R-C05.2:keyspace::Keyspace::range", KS,
+  "let iter = self.tree.range(range, nonce.instant, None);", "let iter = self.tree.range(range, SeqNo::MAX, None);")
+B("C05-prefix-seqno-max", "C05", "C05:R-C05.2:keyspace::Keyspace::prefix", KS,
+  "let iter = self.tree.prefix(prefix, nonce.instant, None);", "let iter = self.tree.prefix(prefix, SeqNo::MAX, None);")
+B("C05-double-close", "C05", "C05:R-C05.1:tx::optimistic::oracle::Oracle::with_commit:calls-close_raw", "src/tx/optimistic/oracle.rs",
+  """        // TODO: This can be expensive and should probably be done in a background worker, or a after a memtable rotation""",
+  """        self.snapshot_tracker.close_raw(instant);
+
+        // TODO: This can be expensive and should probably be done in a background worker, or a after a memtable rotation""")
+B("C05-open-lock-dropped", "C05", "C05:R-C05.4:snapshot_tracker::SnapshotTracker::open", TRACKER,
+  """    pub fn open(&self) -> SnapshotNonce {
+        #[expect(clippy::expect_used)]
+        let _lock = self.gc_lock.read().expect("lock is poisoned");""",
+  """    pub fn open(&self) -> SnapshotNonce {
+        #[expect(clippy::expect_used)]
+        drop(self.gc_lock.read().expect("lock is poisoned"));""")
+B("C05-gc-shared-lock", "C05", "C05:R-C05.4:snapshot_tracker::SnapshotTracker::gc", TRACKER,
+  """    pub(crate) fn gc(&self) {
+        #[expect(clippy::expect_used)]
+        let _lock = self.gc_lock.write().expect("lock is poisoned");""",
+  """    pub(crate) fn gc(&self) {
+        #[expect(clippy::expect_used)]
+        let _lock = self.gc_lock.read().expect("lock is poisoned");""")
+B("C05-flush-threshold-visible-seqno", "C05", "C05:R-C05.5:flush::worker::run", "src/flush/worker.rs",
+  "let gc_watermark = snapshot_tracker.get_seqno_safe_to_gc();", "let gc_watermark = snapshot_tracker.get();")
+B("C05-pullup-unconditional", "C05", "C05:R-C05.5:snapshot_tracker::SnapshotTracker::pullup", TRACKER,
+  """        if self.data.is_empty() {
+            self.lowest_freed_instant.store(
+                self.seqno.get().saturating_sub(1),
+                std::sync::atomic::Ordering::Release,
+            );
+        }""",
+  """        let _ = self.data.is_empty();
+        self.lowest_freed_instant.store(
+            self.seqno.get().saturating_sub(1),
+            std::sync::atomic::Ordering::Release,
+        );""")
+B("C05-snapshot-get-latest", "C05", "C05:R-C05.2:<snapshot::Snapshot as readable::Readable>::get", "src/snapshot.rs",
+  """            .get(key, self.nonce.instant)""", """            .get(key, SeqNo::MAX)""")
+B("C05-iter-other-registration", "C05", "C05:R-C05.2:keyspace::Keyspace::iter", KS,
+  """        let nonce = self.supervisor.snapshot_tracker.open();
+        let iter = self.tree.iter(nonce.instant, None);
+        crate::iter::Iter::new(nonce, iter)""",
+  """        let instant = self.supervisor.snapshot_tracker.open().instant;
+        let iter = self.tree.iter(instant, None);
+        let nonce = self.supervisor.snapshot_tracker.open();
+        crate::iter::Iter::new(nonce, iter)""")
+B("C05-clone-unregistered", "C05", "C05:R-C05.1", "src/snapshot_nonce.rs",
+  """    fn clone(&self) -> Self {
+        self.tracker.clone_snapshot(self)
+    }""",
+  """    fn clone(&self) -> Self {
+        Self::new(self.instant, self.tracker.clone())
+    }""")
+B("C05-tx-read-latest", "C05", "C05:R-C05.2:<tx::write_tx::BaseTransaction as readable::Readable>::contains_key", "src/tx/write_tx.rs",
+  "let contains = keyspace.tree.contains_key(key, self.nonce.instant)?;", "let contains = keyspace.tree.contains_key(key, SeqNo::MAX)?;")
+B("C05-major-compact-threshold", "C05", "C05:R-C05.5:keyspace::Keyspace::major_compact", KS,
+  """            64_000_000,
+            self.supervisor.snapshot_tracker.get_seqno_safe_to_gc(),""",
+  """            64_000_000,
+            self.supervisor.seqno.get(),""")
+E("EQ-iter-instant-local", KS,
+  """        let nonce = self.supervisor.snapshot_tracker.open();
+        let iter = self.tree.iter(nonce.instant, None);
+        crate::iter::Iter::new(nonce, iter)""",
+  """        let tracker = &self.supervisor.snapshot_tracker;
+        let nonce = tracker.open();
+        let at = nonce.instant;
+        let iter = self.tree.iter(at, None);
+        crate::iter::Iter::new(nonce, iter)""")
